@@ -66,3 +66,61 @@ def use_after_move(run, F):
                                   '`%s` is used (%s) after it was moved from at line %s: for a general %s the moved-from object no longer carries its state' % (p, used[0], e.get('line'), types[p] or 'class type'))
                     break
     if n == 0: raise Broken('no std::move of a local found (extractor too old?)')
+
+
+def _occ_fw(e):
+    out = []
+    def walk(x):
+        if isinstance(x, dict):
+            if x.get('op') in ('path', 'call') and 'p' in x: out.append((x['p'], bool(x.get('fw')) or bool(x.get('mv'))))
+            for k in ('l', 'r', 'e', 'c', 't', 'f'):
+                if k in x: walk(x[k])
+        elif isinstance(x, list):
+            for y in x: walk(y)
+    for k in ('args', 'rhs', 'v', 'cond'):
+        if k in e: walk(e[k])
+    if e.get('k') == 'decl':
+        for v in e['vars']: walk(v.get('init'))
+    if e.get('k') == 'call':
+        b = e['callee'].get('base')
+        if b: out.append((b, False))
+    return out
+
+
+def _encloses(outer, inner):
+    return bool(outer and inner and (outer[0], outer[1]) <= (inner[0], inner[1]) and (inner[2], inner[3]) <= (outer[2], outer[3]))
+
+
+@rule('R-FWD-ONCE', ['C13', 'C05', 'C02', 'C18'], floor=150)
+def forward_once(run, F):
+    """a forwarding-reference / rvalue-reference parameter (or pack) that has been forwarded - std::forward, std::move, (T&&)x, static_cast<T&&>(x) - into a call or constructor is not used again on any later non-exceptional path (enclosing expressions of the same full expression excepted): the first consumer may have moved the values out, so a predicate that is given the forwarded element leaves the downstream receiver a moved-from element"""
+    n = 0
+    for f in F.funcs:
+        if not f.get('blocks'): continue
+        types = {p['name']: p['type'].replace('...', '').rstrip() for p in f.get('params', []) if p['name']}
+        fw = []
+        for b, i, e in events(f):
+            if e['k'] not in ('call', 'construct', 'initlist', 'decl', 'assign', 'init', 'ret'): continue
+            for p, m in _occ_fw(e):
+                if m and p in types and types[p].endswith('&&'): fw.append(((b['id'], i), p, e))
+        if not fw: continue
+        G = Graph(f)
+        done = set()
+        for node, p, e in fw:
+            n += 1
+            run.inst(site(f, e.get('line')), '`%s` not used after it was forwarded' % p, key=(f['qname'], p, e.get('line')))
+            if p in done: continue
+            after = G.reach([m for m, l in G.succ.get(node, []) if l != 'exc'], skip_exc=True)
+            after.discard(node)
+            for x in sorted(after):
+                ex = G.ev[x]
+                if ex.get('k') == 'assign' and ex.get('lhs') == p: break
+                if _encloses(ex.get('rng'), e.get('rng')): continue          # the consumer expression(s) of this very forward
+                if not ex.get('rng') and (ex.get('line') or 0) == (e.get('line') or -1): continue
+                used = [q for q, m in _occ_fw(ex) if q.split('.')[0] == p]
+                if used:
+                    done.add(p)
+                    run.violation(f['qname'], 'use-after-forward:' + p, '%s:%s' % (f['file'], G.line(x)),
+                                  '`%s` (%s) is used again at line %s after it was forwarded at line %s: the first consumer may have moved from it, so the second one receives a moved-from object' % (p, types[p], G.line(x), e.get('line')))
+                    break
+    if n == 0: raise Broken('no forwarded parameter found (extractor too old?)')
